@@ -11,7 +11,8 @@ using namespace vf;
 
 static const size_t SZMAX = (size_t)-1;
 static size_t pick_size(Tape &t) {
-  switch (t.weighted({10, 2, 1, 1, 1, 1, 1, 1})) {
+  switch (t.weighted({10, 2, 1, 1, 1, 1, 1, 1, 1})) {
+    case 8: return t.coin() ? 70000 + t.below(3) : 200000 + t.below(70000);  // large blocks: shrinking them crosses any "slack" threshold
     case 0: return t.below(65);
     case 1: return 4096 + t.below(3);
     case 2: return 0;
@@ -60,6 +61,7 @@ static Fields gen(Tape &t) {
       default: op = "f:" + std::to_string(idx);
     }
     f.kv.emplace_back("op." + std::to_string(i), op);
+    f.seti("mgr." + std::to_string(i), t.chance(2, 3) ? 0 : 1);  // which of two completed managers serves a fresh allocation
   }
   // backend fault plan: a sparse bit mask over the first 64 backend requests
   uint64_t mask = 0;
@@ -68,7 +70,7 @@ static Fields gen(Tape &t) {
   return f;
 }
 
-struct Blk { unsigned char *p; size_t size; unsigned char pat; };
+struct Blk { unsigned char *p; size_t size; unsigned char pat; int mgr; };
 
 static std::vector<size_t> nums(const std::string &s) {
   std::vector<size_t> v;
@@ -84,14 +86,19 @@ static std::vector<size_t> nums(const std::string &s) {
 }
 
 static Verdict check(const Fields &f) {
-  LedgerMM backend;
-  backend.mm.calloc = nullptr; backend.mm.realloc = nullptr; backend.mm.reallocarray = nullptr;  // malloc + free only
-  backend.refuse_above = 16u << 20;
-  backend.fail_mask = strtoull(f.get("faultmask").c_str(), nullptr, 10);
-  UriMemoryManager m;
-  memset(&m, 0, sizeof m);
-  VF_REQUIRE(uriCompleteMemoryManager(&m, &backend.mm) == 0, "uriCompleteMemoryManager failed on a malloc/free backend");
-  VF_REQUIRE(m.malloc && m.calloc && m.realloc && m.reallocarray && m.free, "completed manager lacks a function");
+  // two managers completed from two different backends live side by side: a block belongs to the manager that made it
+  LedgerMM backends[2];
+  UriMemoryManager ms[2];
+  for (int k = 0; k < 2; k++) {
+    LedgerMM &be = backends[k];
+    be.mm.calloc = nullptr; be.mm.realloc = nullptr; be.mm.reallocarray = nullptr;  // malloc + free only
+    be.refuse_above = 16u << 20;
+    be.fail_mask = strtoull(f.get("faultmask").c_str(), nullptr, 10);
+    be.tag = k ? "backend-1" : "backend-0";
+    memset(&ms[k], 0, sizeof ms[k]);
+    VF_REQUIRE(uriCompleteMemoryManager(&ms[k], &be.mm) == 0, "uriCompleteMemoryManager failed on a malloc/free backend");
+    VF_REQUIRE(ms[k].malloc && ms[k].calloc && ms[k].realloc && ms[k].reallocarray && ms[k].free, "completed manager lacks a function");
+  }
   std::vector<Blk> live;
   unsigned char nextPat = 1;
   size_t maxLive = 0;
@@ -109,9 +116,13 @@ static Verdict check(const Fields &f) {
       if (r[i].first == r[i - 1].first) VF_FAIL("step %lld (%s): two live blocks share the address %p", step, when, (void *)r[i].first);
       if (r[i - 1].first + r[i - 1].second > r[i].first) VF_FAIL("step %lld (%s): live blocks overlap", step, when);
     }
-    if (backend.bad_free) VF_FAIL("step %lld (%s): backend saw %s", step, when, backend.bad_free_what.c_str());
-    if (backend.outstanding() != live.size())
-      VF_FAIL("step %lld (%s): backend holds %zu blocks, the caller %zu", step, when, backend.outstanding(), live.size());
+    for (int k = 0; k < 2; k++) {
+      size_t mine = 0;
+      for (auto &b : live) if (b.mgr == k) mine++;
+      if (backends[k].bad_free) VF_FAIL("step %lld (%s): %s saw %s", step, when, backends[k].tag, backends[k].bad_free_what.c_str());
+      if (backends[k].outstanding() != mine)
+        VF_FAIL("step %lld (%s): %s holds %zu blocks, the caller %zu of that manager", step, when, backends[k].tag, backends[k].outstanding(), mine);
+    }
     return Verdict::pass();
   };
   auto fill = [&](Blk &b) { b.pat = nextPat++; if (!nextPat) nextPat = 1; if (b.size) memset(b.p, b.pat, b.size); };
@@ -123,13 +134,17 @@ static Verdict check(const Fields &f) {
     std::vector<size_t> a = nums(op);
     stats().sub_evaluations++;
     errno = 0;
+    int mk = (int)f.geti("mgr." + std::to_string(step)) & 1;
+    if ((op[0] == 'r' || op[0] == 'a' || op[0] == 'f') && !live.empty() && a.at(0) != SZMAX) mk = live[a.at(0) % live.size()].mgr;  // an existing block goes back to its own manager
+    UriMemoryManager &m = ms[mk];
+    LedgerMM &backend = backends[mk];
     uint64_t failedBefore = backend.failed;
     switch (op[0]) {
       case 'm': {
         size_t s = a.at(0);
         void *p = m.malloc(&m, s);
         if (s > SZMAX - sizeof(size_t)) { VF_REQUIRE(p == nullptr, "step %lld: malloc(%zu) must fail (size overflow)", step, s); VF_REQUIRE(errno == ENOMEM, "step %lld: malloc overflow without ENOMEM", step); break; }
-        if (p) { Blk b{(unsigned char *)p, s, 0}; fill(b); live.push_back(b); shrunk.push_back(0); }
+        if (p) { Blk b{(unsigned char *)p, s, 0, mk}; fill(b); live.push_back(b); shrunk.push_back(0); }
         else VF_REQUIRE(backend.failed > failedBefore || s + sizeof(size_t) > backend.refuse_above, "step %lld: malloc(%zu) returned NULL although the backend did not fail", step, s);
         break;
       }
@@ -141,7 +156,7 @@ static Verdict check(const Fields &f) {
         if (s > SZMAX - sizeof(size_t)) { VF_REQUIRE(p == nullptr, "step %lld: calloc total too large must fail", step); break; }
         if (p) {
           for (size_t i = 0; i < s; i++) VF_REQUIRE(((unsigned char *)p)[i] == 0, "step %lld: calloc memory not zeroed at %zu", step, i);
-          Blk b{(unsigned char *)p, s, 0}; fill(b); live.push_back(b); shrunk.push_back(0);
+          Blk b{(unsigned char *)p, s, 0, mk}; fill(b); live.push_back(b); shrunk.push_back(0);
         } else VF_REQUIRE(backend.failed > failedBefore || s + sizeof(size_t) > backend.refuse_above, "step %lld: calloc returned NULL although the backend did not fail", step);
         break;
       }
@@ -157,7 +172,7 @@ static Verdict check(const Fields &f) {
         if (ovf) { VF_REQUIRE(q == nullptr && errno == ENOMEM, "step %lld: reallocarray(%zu,%zu) overflows: expected NULL with ENOMEM (errno=%d)", step, a.at(1), a.at(2), errno); break; }
         if (idx < 0) {  // realloc(NULL, s) behaves as malloc(s)
           if (s > SZMAX - sizeof(size_t)) { VF_REQUIRE(q == nullptr, "step %lld: realloc(NULL, huge) must fail", step); break; }
-          if (q) { Blk b{(unsigned char *)q, s, 0}; fill(b); live.push_back(b); shrunk.push_back(0); }
+          if (q) { Blk b{(unsigned char *)q, s, 0, mk}; fill(b); live.push_back(b); shrunk.push_back(0); }
           else VF_REQUIRE(backend.failed > failedBefore || s + sizeof(size_t) > backend.refuse_above, "step %lld: realloc(NULL,%zu) returned NULL although the backend did not fail", step, s);
           break;
         }
@@ -195,13 +210,15 @@ static Verdict check(const Fields &f) {
     Verdict v = verify(op.c_str(), step);
     if (v.kind != Verdict::PASS) return v;
   }
-  while (!live.empty()) { m.free(&m, live.back().p); live.pop_back(); }
-  VF_REQUIRE(backend.outstanding() == 0, "%zu backend blocks still allocated after the caller freed everything", backend.outstanding());
-  VF_REQUIRE(backend.bad_free == 0, "backend saw %s", backend.bad_free_what.c_str());
+  while (!live.empty()) { ms[live.back().mgr].free(&ms[live.back().mgr], live.back().p); live.pop_back(); }
+  for (int k = 0; k < 2; k++) {
+    VF_REQUIRE(backends[k].outstanding() == 0, "%zu blocks of %s still allocated after the caller freed everything", backends[k].outstanding(), backends[k].tag);
+    VF_REQUIRE(backends[k].bad_free == 0, "%s saw %s", backends[k].tag, backends[k].bad_free_what.c_str());
+  }
   Stats &S = stats();
   if (growAfterShrink) S.hit("grow_after_shrink");
   if (backendFailOnGrow) S.hit("backend_failure_during_growth");
-  if (backend.failed) S.hit("sequences_with_backend_failure");
+  if (backends[0].failed || backends[1].failed) S.hit("sequences_with_backend_failure");
   if (maxLive >= 3 && (growAfterShrink || backendFailOnGrow)) { std::string k = f.text(); S.nontrivial(k, k.substr(0, 400)); }
   return Verdict::pass();
 }
